@@ -373,6 +373,22 @@ theorem Inv.run {I : Interval} {ms : List Msg} : ∀ {pre acc r} (retTs : Bool),
 
 /-! ## no range specified -/
 
+/-- One call on a range without bounds: everything is accepted, and the first P1 time is recorded as `t0` whichever
+of the two shortcuts is taken (the first one needs `t0` to be known already, and then recording changes nothing). -/
+theorem TimeRange.isInRange_unspecified {r : TimeRange} (retTs : Bool) (m : Msg) (hs : r.specified = false) :
+    r.isInRange retTs m = ({ r.extract m with started := true }, true) := by
+  obtain ⟨s, e, a, z, sp, st, en⟩ := r
+  simp only at hs
+  subst hs
+  cases z with
+  | none => cases retTs <;> simp [TimeRange.isInRange]
+  | some z =>
+    cases retTs <;> cases hm : m.p1? <;> simp [TimeRange.isInRange, TimeRange.extract, TimeRange.t0After, hm]
+
+theorem TimeRange.extract_specified (r : TimeRange) (m : Msg) : (r.extract m).specified = r.specified := by
+  unfold TimeRange.extract
+  cases m.p1? <;> rfl
+
 theorem TimeRange.run_unspecified {ms : List Msg} : ∀ {r : TimeRange} (retTs : Bool), r.specified = false →
     (r.run retTs ms).2 = ms.map fun _ => true := by
   induction ms with
@@ -380,10 +396,10 @@ theorem TimeRange.run_unspecified {ms : List Msg} : ∀ {r : TimeRange} (retTs :
   | cons m ms ih =>
     intro r retTs h
     have h1 : (r.isInRange retTs m).2 = true := by
-      cases retTs <;> simp [TimeRange.isInRange, h]
+      rw [TimeRange.isInRange_unspecified retTs m h]
     have h2 : (r.isInRange retTs m).1.specified = false := by
-      cases retTs <;> simp [TimeRange.isInRange, h, TimeRange.extract]
-      cases m.p1? <;> simp [h]
+      rw [TimeRange.isInRange_unspecified retTs m h]
+      exact (r.extract_specified m).trans h
     simp only [TimeRange.run, List.map_cons]
     rw [h1, ih retTs h2]
 
@@ -957,7 +973,9 @@ theorem TimeRange.isInRange_static (r : TimeRange) (retTs : Bool) (m : Msg) :
     (r.isInRange retTs m).1.absolute = r.absolute ∧ (r.isInRange retTs m).1.specified = r.specified := by
   cases hs : r.specified with
   | false =>
-    cases retTs <;> simp [TimeRange.isInRange, hs, TimeRange.extract] <;> cases m.p1? <;> simp [hs]
+    rw [TimeRange.isInRange_unspecified retTs m hs]
+    unfold TimeRange.extract
+    cases m.p1? <;> simp [hs]
   | true =>
     cases hm : m.p1? with
     | none => rw [TimeRange.isInRange_untimed retTs hs hm]; simp [hs]
@@ -980,22 +998,124 @@ theorem TimeRange.run_wf {r : TimeRange} (retTs : Bool) (ms : List Msg) (h : r.W
   unfold TimeRange.WF at h ⊢
   rw [h1, h2, h4]; exact h
 
-/-- The origin established by a run: the supplied `t0`, else the first P1 time seen. -/
-theorem TimeRange.run_t0 {ms : List Msg} : ∀ (r : TimeRange) (retTs : Bool), r.specified = true →
-    (r.run retTs ms).1.t0 = orElse r.t0 (firstP1 ms) := by
-  induction ms with
-  | nil => intro r _ _; simp only [TimeRange.run]; unfold orElse firstP1; cases h : r.t0 <;> simp [p1Times]
-  | cons m ms ih =>
-    intro r retTs hs
-    have hs' : (r.isInRange retTs m).1.specified = true := by rw [(r.isInRange_static retTs m).2.2.2, hs]
-    simp only [TimeRange.run]
-    rw [ih _ retTs hs']
+/-- `t0` after one call: the supplied or already established one, else the P1 time of this message. -/
+theorem TimeRange.isInRange_t0 (r : TimeRange) (retTs : Bool) (m : Msg) :
+    (r.isInRange retTs m).1.t0 = orElse r.t0 m.p1? := by
+  cases hs : r.specified with
+  | false =>
+    rw [TimeRange.isInRange_unspecified retTs m hs]
+    unfold TimeRange.extract orElse TimeRange.t0After
+    cases m.p1? <;> cases r.t0 <;> rfl
+  | true =>
     cases hm : m.p1? with
-    | none => rw [TimeRange.isInRange_untimed retTs hs hm, firstP1_cons_untimed hm]
+    | none => rw [TimeRange.isInRange_untimed retTs hs hm]; unfold orElse; cases r.t0 <;> rfl
     | some t =>
-      rw [TimeRange.isInRange_timed retTs hs hm, firstP1_cons_timed hm]
+      rw [TimeRange.isInRange_timed retTs hs hm]
       unfold orElse TimeRange.t0After
       cases r.t0 <;> rfl
+
+/-- The origin established by a run: the supplied `t0`, else the first P1 time seen - whether or not the range has
+bounds. -/
+theorem TimeRange.run_t0 {ms : List Msg} : ∀ (r : TimeRange) (retTs : Bool),
+    (r.run retTs ms).1.t0 = orElse r.t0 (firstP1 ms) := by
+  induction ms with
+  | nil => intro r _; simp only [TimeRange.run]; unfold orElse firstP1; cases h : r.t0 <;> simp [p1Times]
+  | cons m ms ih =>
+    intro r retTs
+    simp only [TimeRange.run]
+    rw [ih _ retTs, TimeRange.isInRange_t0]
+    cases hm : m.p1? with
+    | none => rw [firstP1_cons_untimed hm]; unfold orElse; cases r.t0 <;> rfl
+    | some t => rw [firstP1_cons_timed hm]; unfold orElse; cases r.t0 <;> rfl
+
+/-! ## operations on ranges that have already been used -/
+
+/-- `intersect` looks at the latches of neither range and hands the receiver's on unchanged: clearing them before
+or after is the same. -/
+theorem TimeRange.intersect_restart {x y c : TimeRange} (h : x.intersect y = .ok c) :
+    x.restart.intersect y.restart = .ok c.restart := by
+  obtain ⟨xs, xe, xa, xz, xsp, xst, xen⟩ := x
+  obtain ⟨ys, ye, ya, yz, ysp, yst, yen⟩ := y
+  cases xa <;> cases ya <;> cases xz <;> cases yz <;>
+    simp [TimeRange.intersect, TimeRange.makeAbsolute, TimeRange.meet, TimeRange.restart] at h ⊢ <;>
+    (subst h; simp)
+
+/-- The interval a used range stands for on its next pass: bounds and type as constructed, origin as established. -/
+theorem TimeRange.interval_after_run (r : TimeRange) (retTs : Bool) (hist msgs : List Msg) :
+    ((r.run retTs hist).1.restart).interval msgs =
+      ⟨r.start, r.stop, r.absolute, orElse (orElse r.t0 (firstP1 hist)) (firstP1 msgs)⟩ := by
+  obtain ⟨h1, h2, h3, _⟩ := TimeRange.run_static (ms := hist) r retTs
+  unfold TimeRange.interval TimeRange.restart
+  simp only [h1, h2, h3, TimeRange.run_t0 r retTs]
+
+/-- What `make_absolute` does to the bounds of a relative range whose origin is `z`. -/
+def TimeRange.shifted (r : TimeRange) (z : Int) : TimeRange :=
+  { r with start := r.start.map (·.add z), stop := r.stop.map (· + z), absolute := true }
+
+theorem TimeRange.makeAbsolute_known {r : TimeRange} {z : Int} (p : Option Int) (ha : r.absolute = false)
+    (hz : r.t0 = some z) : r.makeAbsolute p = .ok (r.shifted z) := by
+  obtain ⟨s, e, a, t0, sp, st, en⟩ := r
+  simp only at ha hz
+  subst ha; subst hz
+  cases p <;> simp [TimeRange.makeAbsolute, TimeRange.shifted]
+
+theorem TimeRange.shifted_below {r : TimeRange} {z : Int} (ha : r.absolute = false) (hz : r.t0 = some z) (t : Int) :
+    (r.shifted z).below ((r.shifted z).cmpTime t) = r.below (r.cmpTime t) := by
+  unfold TimeRange.below TimeRange.cmpTime TimeRange.shifted TimeRange.t0After
+  simp only [ha, hz, if_true]
+  cases r.start with
+  | none => rfl
+  | some s => simp [Ext.above_add]
+
+theorem TimeRange.shifted_beyond {r : TimeRange} {z : Int} (ha : r.absolute = false) (hz : r.t0 = some z) (t : Int) :
+    (r.shifted z).beyond ((r.shifted z).cmpTime t) = r.beyond (r.cmpTime t) := by
+  unfold TimeRange.beyond TimeRange.cmpTime TimeRange.shifted TimeRange.t0After
+  simp only [ha, hz, if_true]
+  cases r.stop with
+  | none => rfl
+  | some e =>
+    simp only [Option.map_some, Bool.false_eq_true, if_false]
+    by_cases h : e ≤ t - z
+    · have : e + z ≤ t := by omega
+      simp [h, this]
+    · have : ¬ e + z ≤ t := by omega
+      simp [h, this]
+
+/-- One call on the converted range is the same call on the relative range, converted afterwards. -/
+theorem TimeRange.shifted_isInRange {r : TimeRange} {z : Int} (ha : r.absolute = false) (hz : r.t0 = some z)
+    (retTs : Bool) (m : Msg) :
+    (r.shifted z).isInRange retTs m = ((r.isInRange retTs m).1.shifted z, (r.isInRange retTs m).2) := by
+  cases hs : r.specified with
+  | false =>
+    have hs' : (r.shifted z).specified = false := hs
+    rw [TimeRange.isInRange_unspecified retTs m hs, TimeRange.isInRange_unspecified retTs m hs']
+    unfold TimeRange.extract TimeRange.shifted
+    cases m.p1? <;> rfl
+  | true =>
+    have hs' : (r.shifted z).specified = true := hs
+    cases hm : m.p1? with
+    | none =>
+      rw [TimeRange.isInRange_untimed retTs hs hm, TimeRange.isInRange_untimed retTs hs' hm]
+      unfold TimeRange.shifted
+      cases r.start <;> rfl
+    | some t =>
+      rw [TimeRange.isInRange_timed retTs hs hm, TimeRange.isInRange_timed retTs hs' hm,
+        TimeRange.shifted_below ha hz, TimeRange.shifted_beyond ha hz]
+      unfold TimeRange.shifted TimeRange.t0After
+      simp only [hz]
+
+theorem TimeRange.shifted_run {ms : List Msg} : ∀ {r : TimeRange} {z : Int}, r.absolute = false → r.t0 = some z →
+    ∀ retTs : Bool, ((r.shifted z).run retTs ms).2 = (r.run retTs ms).2 := by
+  induction ms with
+  | nil => intros; rfl
+  | cons m ms ih =>
+    intro r z ha hz retTs
+    have ha' : (r.isInRange retTs m).1.absolute = false := by rw [(r.isInRange_static retTs m).2.2.1, ha]
+    have hz' : (r.isInRange retTs m).1.t0 = some z := by rw [TimeRange.isInRange_t0, hz]; rfl
+    simp only [TimeRange.run]
+    rw [TimeRange.shifted_isInRange ha hz retTs m]
+    simp only
+    rw [ih ha' hz' retTs]
 
 /-! ## the specification, message by message -/
 
